@@ -562,7 +562,14 @@ fn translate_datetime_literal_with_sqlite_function(
 }
 
 pub(super) fn translate_cid(cid: rq::CId, ctx: &mut Context) -> Result<ExprOrSource> {
-    if ctx.query.pre_projection {
+    // a computed column that is not part of the projection has no name to refer to:
+    // the expression itself is written (e.g. in the ORDER BY of a sub-query)
+    let unnamed_compute = matches!(
+        ctx.anchor.column_decls.get(&cid),
+        Some(ColumnDecl::Compute(_))
+    ) && !ctx.anchor.column_names.contains_key(&cid);
+
+    if ctx.query.pre_projection || unnamed_compute {
         log::debug!("translating {cid:?} pre projection");
         let decl = ctx.anchor.column_decls.get(&cid).expect("bad RQ ids");
 
@@ -611,7 +618,8 @@ pub(super) fn translate_cid(cid: rq::CId, ctx: &mut Context) -> Result<ExprOrSou
             }
 
             _ => {
-                let name = ctx.anchor.column_names.get(&cid).cloned();
+                // a column of a table that was not given another name keeps its own
+                let name = ctx.anchor.column_name(cid);
                 name.expect("name of this column has not been to be set before generating SQL")
             }
         };
